@@ -10,6 +10,7 @@
 import Cobweb.Proofs.Trackers
 import Cobweb.Proofs.Flags
 import Cobweb.Theorems.C03
+import Cobweb.Proofs.FlagsExact
 
 namespace Cobweb.C04
 
@@ -160,6 +161,18 @@ theorem take_once (s : St) (w : Option Nat) (ty : Nat) (x : DataEnt)
       · cases h
     · cases h
   · cases h
+
+/-- **The flags are exact (converse of `C04_flag_means_cleanup_pending`), for every execution**: while the cleanup of a
+    run caused by a command of kind `k` is the next thing to happen to the trackers — the body is being interpreted, or
+    has just ended, or (exclusive systems) the queued cleanup is at the head of the world queue — every tracker that `k`
+    uses *is* flagged as reacting: the run can read its event. Together with `C04_every_run_starts_idle` and
+    `C04_flag_means_cleanup_pending`: a tracker is flagged exactly from the `setup` of a run that uses it to that run's
+    `cleanup`. -/
+theorem C04_flags_exact {p : Prog} {h : Hist} {s : St} (hr : Reach p h ({} : St) s) (k : Kind) (T : TrkId)
+    (hp : PendCleanup s k) (hu : uses T k = true) : flagOf T s = true :=
+  (inv5_reach p h inv5_default hr).used k T hp hu
+
+example : Used ({} : St) := used_default
 
 example : Idle ({} : St) := ⟨rfl, rfl, rfl, rfl⟩
 
